@@ -1,10 +1,13 @@
 (* C08 — set operations obey multiset algebra.
    zcnt r l = number of rows of l that are == r.  Proved here, for all tables: the Counter-based variants
    (hashcomplement, strict hashcomplement, hashintersection) have exactly the prescribed multiplicities and reassemble a.
-   The same laws for the sort-merge variants (complement / intersection two-pointer loops of model/SetOps.v) are
-   NOT mechanised in this file: they are judged on every run by the extracted oracle SetSpec.setop_spec_holds /
-   reassemble_holds on the implementation's output (statement kept visible below as a comment). *)
-From Verif Require Import PyVal Rows SetOps SetSpec SetFacts.
+   The same laws hold for the sort-merge variants (the two-pointer loops of itercomplement / iterintersection as written,
+   model/SetOps.v) on inputs sorted by the Comparable order (proofs/MergeFacts.v, induction on the two streams), so the
+   merge and the hash variants deliver the same multisets.  Hypothesis of the merge theorems: on the rows in play raw ==
+   coincides with the equivalence of the Comparable order (no list-valued cells; the harness judges the conclusion on the
+   implementation's output for every generated table anyway). *)
+From Verif Require Import PyVal Rows Order SetOps SetSpec SetFacts MergeFacts.
+From Coq Require Import Sorted.
 Open Scope Z_scope.
 
 Theorem C08_hashcomplement_is_multiset_difference : forall ra rb r,
@@ -28,10 +31,64 @@ Theorem C08_row_equality_is_equivalence :
   /\ (forall a b d, row_eq a b = true -> row_eq b d = true -> row_eq a d = true).
 Proof. repeat split; [exact row_eq_refl | exact row_eq_sym | exact row_eq_trans]. Qed.
 
-(* target statement for the merge variants (not yet mechanised):
-   forall strict a b r, sorted a -> sorted b ->
-     zcnt r (itercomplement_data strict a b) = (if strict then (if 0 <? zcnt r b then 0 else zcnt r a) else Z.max 0 (zcnt r a - zcnt r b))
-     /\ zcnt r (iterintersection_data a b) = Z.min (zcnt r a) (zcnt r b) *)
+Theorem C08_complement_is_multiset_difference : forall (ok : row -> Prop),
+  (forall a b, ok a -> ok b -> row_eq a b = is_eq (rcmp a b)) ->
+  forall ra rb, StronglySorted rle ra -> StronglySorted rle rb -> Forall ok ra -> Forall ok rb -> forall r, ok r ->
+  zcnt r (itercomplement_data false ra rb) = Z.max 0 (zcnt r ra - zcnt r rb).
+Proof. exact merge_complement_is_multiset_difference. Qed.
+
+Theorem C08_complement_strict : forall (ok : row -> Prop),
+  (forall a b, ok a -> ok b -> row_eq a b = is_eq (rcmp a b)) ->
+  forall ra rb, StronglySorted rle ra -> StronglySorted rle rb -> Forall ok ra -> Forall ok rb -> forall r, ok r ->
+  zcnt r (itercomplement_data true ra rb) = if 0 <? zcnt r rb then 0 else zcnt r ra.
+Proof. exact merge_complement_strict_spec. Qed.
+
+Theorem C08_intersection_is_multiset_intersection : forall (ok : row -> Prop),
+  (forall a b, ok a -> ok b -> row_eq a b = is_eq (rcmp a b)) ->
+  forall ra rb, StronglySorted rle ra -> StronglySorted rle rb -> Forall ok ra -> Forall ok rb -> forall r, ok r ->
+  zcnt r (iterintersection_data ra rb) = Z.min (zcnt r ra) (zcnt r rb).
+Proof. exact merge_intersection_is_multiset_intersection. Qed.
+
+Theorem C08_merge_and_hash_variants_agree : forall (ok : row -> Prop),
+  (forall a b, ok a -> ok b -> row_eq a b = is_eq (rcmp a b)) ->
+  forall ra rb, StronglySorted rle ra -> StronglySorted rle rb -> Forall ok ra -> Forall ok rb -> forall r, ok r ->
+  zcnt r (itercomplement_data false ra rb) = zcnt r (hashcomp_loop false (cnt_of rb) ra) /\
+  zcnt r (itercomplement_data true ra rb) = zcnt r (hashcomp_loop true (cnt_of rb) ra) /\
+  zcnt r (iterintersection_data ra rb) = zcnt r (hashinter_loop (cnt_of rb) ra).
+Proof. exact merge_agrees_with_hash. Qed.
+
+Theorem C08_complement_intersection_reassemble : forall (ok : row -> Prop),
+  (forall a b, ok a -> ok b -> row_eq a b = is_eq (rcmp a b)) ->
+  forall ra rb, StronglySorted rle ra -> StronglySorted rle rb -> Forall ok ra -> Forall ok rb -> forall r, ok r ->
+  zcnt r (itercomplement_data false ra rb) + zcnt r (iterintersection_data ra rb) = zcnt r ra.
+Proof. exact merge_reassemble. Qed.
+
+(* end to end: the model of complement / intersection itself (sort both inputs as whole rows, then merge) on two
+   rectangular tables given in any order *)
+Theorem C08_complement_of_unsorted_tables : forall (ok : row -> Prop),
+  (forall a b, ok a -> ok b -> row_eq a b = is_eq (rcmp a b)) ->
+  forall ha hb ra rb, Forall (fun r : row => length r = length ha) ra -> Forall (fun r : row => length r = length hb) rb ->
+  ha <> [] -> hb <> [] -> Forall ok ra -> Forall ok rb -> forall r, ok r ->
+  exists out, setop_model (OpComplement false) false None (ha :: ra) (hb :: rb) = (ha :: out, None) /\
+              zcnt r out = Z.max 0 (zcnt r ra - zcnt r rb).
+Proof. exact complement_model_is_multiset_difference. Qed.
+
+Theorem C08_intersection_of_unsorted_tables : forall (ok : row -> Prop),
+  (forall a b, ok a -> ok b -> row_eq a b = is_eq (rcmp a b)) ->
+  forall ha hb ra rb, Forall (fun r : row => length r = length ha) ra -> Forall (fun r : row => length r = length hb) rb ->
+  ha <> [] -> hb <> [] -> Forall ok ra -> Forall ok rb -> forall r, ok r ->
+  exists out, setop_model OpIntersection false None (ha :: ra) (hb :: rb) = (ha :: out, None) /\
+              zcnt r out = Z.min (zcnt r ra) (zcnt r rb).
+Proof. exact intersection_model_is_multiset_intersection. Qed.
+
+(* the hypotheses are satisfiable: rows of scalars satisfy the compatibility, and a sorted pair of streams exists *)
+Example C08_ex_merge :
+  let a := [[VNone]; [VNum KInt (Fin 1)]; [VNum KInt (Fin 1)]; [VStr [97]]] in
+  let b := [[VNum KBool (Fin 1)]; [VStr [98]]] in
+  itercomplement_data false a b = [[VNone]; [VNum KInt (Fin 1)]; [VStr [97]]] /\
+  iterintersection_data a b = [[VNum KInt (Fin 1)]] /\
+  row_eq [VNum KInt (Fin 1)] [VNum KBool (Fin 1)] = is_eq (rcmp [VNum KInt (Fin 1)] [VNum KBool (Fin 1)]).
+Proof. vm_compute. auto. Qed.
 
 Example C08_ex :
   let a := [[VNum KInt (Fin 1)]; [VNone]; [VNum KInt (Fin 1)]; [VStr [97]]] in
@@ -45,3 +102,10 @@ Print Assumptions C08_hashcomplement_strict.
 Print Assumptions C08_hashintersection_is_multiset_intersection.
 Print Assumptions C08_hash_complement_intersection_reassemble.
 Print Assumptions C08_row_equality_is_equivalence.
+Print Assumptions C08_complement_is_multiset_difference.
+Print Assumptions C08_complement_strict.
+Print Assumptions C08_intersection_is_multiset_intersection.
+Print Assumptions C08_merge_and_hash_variants_agree.
+Print Assumptions C08_complement_intersection_reassemble.
+Print Assumptions C08_complement_of_unsorted_tables.
+Print Assumptions C08_intersection_of_unsorted_tables.
